@@ -437,7 +437,7 @@ func cmpDecodedOpts(opts []*slayers.EndToEndOption, e *c18Ext) string {
 	return ""
 }
 
-func c18Encode(a *acc, p *c18Pkt, buf gopacket.SerializeBuffer) {
+func c18Encode(a *acc, p *c18Pkt, buf gopacket.SerializeBuffer, ru *reuseStream) {
 	wit := func(layer string) c18Wit { return c18Wit{Dir: "encode", Packet: p, Layer: layer} }
 	var out []byte
 	var err error
@@ -535,7 +535,7 @@ func c18Encode(a *acc, p *c18Pkt, buf gopacket.SerializeBuffer) {
 	}
 
 	// ---- (b) decode again, compare field values ----
-	c18RoundTrip(a, p, out, hdrLen, hbhOff, e2eOff, l4Off, witOut)
+	c18RoundTrip(a, p, out, hdrLen, hbhOff, e2eOff, l4Off, witOut, ru)
 }
 
 func cmpPath(p *c18Pkt, got path.Path) string {
@@ -594,7 +594,7 @@ func refHost(tl uint8, raw []byte) (addr.Host, bool) {
 	return addr.Host{}, false
 }
 
-func c18RoundTrip(a *acc, p *c18Pkt, out []byte, hdrLen, hbhOff, e2eOff, l4Off int, wit func(string) c18Wit) {
+func c18RoundTrip(a *acc, p *c18Pkt, out []byte, hdrLen, hbhOff, e2eOff, l4Off int, wit func(string) c18Wit, ru *reuseStream) {
 	fail := func(layer, field, msg string) {
 		a.violation("C18:enc-roundtrip/"+layer+"/"+field, "decode(serialize(v)) differs from v: "+msg, wit(layer))
 	}
@@ -603,7 +603,14 @@ func c18RoundTrip(a *acc, p *c18Pkt, out []byte, hdrLen, hbhOff, e2eOff, l4Off i
 	pv, stack := mon.Try(func() {
 		cur = "scion"
 		var s slayers.SCION
-		if err := s.DecodeFromBytes(data, gopacket.NilDecodeFeedback); err != nil {
+		err := s.DecodeFromBytes(data, gopacket.NilDecodeFeedback)
+		if ru != nil {
+			// the same serialized packet into the long-lived objects of this stream
+			cur = "reuse"
+			ru.packet(out, false, &s, err, nil, false)
+			cur = "scion"
+		}
+		if err != nil {
 			fail("scion", "decode", err.Error())
 			return
 		}
@@ -1009,7 +1016,7 @@ func (d *c18Dec) judge(layer string, off int, lay refLayout, err error, truncate
 	return true
 }
 
-func c18Decode(a *acc, orig []byte, recycle bool, buf gopacket.SerializeBuffer, src string) {
+func c18Decode(a *acc, orig []byte, recycle bool, buf gopacket.SerializeBuffer, src string, ru *reuseStream) {
 	d := &c18Dec{a: a, orig: orig, recycle: recycle, buf: buf, src: src}
 	cur, curOff := "scion", 0
 	allAccepted := false
@@ -1026,6 +1033,13 @@ func c18Decode(a *acc, orig []byte, recycle bool, buf gopacket.SerializeBuffer, 
 		lay := refScionLayout(orig)
 		var fb dfb
 		err := s.DecodeFromBytes(data, &fb)
+		if ru != nil {
+			// the same input into the long-lived objects of this stream, compared
+			// with the fresh layer judged below
+			cur = "reuse"
+			ru.packet(orig, recycle, &s, err, &fb.truncated, src == "truncation-sweep")
+			cur = "scion"
+		}
 		if !d.judge("scion", 0, lay, err, fb.truncated, &s) {
 			return
 		}
@@ -1368,7 +1382,12 @@ func checkC18(r *mon.Run) {
 		"reference-encoded packets with random reserved bits, then valid/truncated/length-field-mutated/bit-flipped/extended/" +
 		"random inputs (and, for a subset, every truncation length), with and without RecyclePaths; a reference layout analysis " +
 		"says where a declared length exceeds the data (must be rejected, no panic); accepted headers are serialized again and " +
-		"compared with the input under the reserved-bit mask. class = direction x layer x outcome x reason / path kind x upper layer x extensions"
+		"compared with the input under the reserved-bit mask. Reuse monitor: per stream of 200 generated inputs (in generation order, plus " +
+		"every 4th length of the truncation sweeps; 1 in 24 SCION/EPIC paths is replaced by the path without segments) one long-lived " +
+		"slayers.SCION with RecyclePaths, one without, one scion.Decoded, scion.Raw, scion.Base, epic.Path and onehop.Path are decoded into " +
+		"again and again from a reused buffer and compared with a fresh object on the same bytes: decision, every field, Len(), SerializeTo " +
+		"into exactly Len() bytes. class = direction x layer x outcome x reason / path kind x upper layer x extensions; " +
+		"reuse/<object>/<what the object decoded before: longer, shorter, empty, rejected, other path type>"
 	r.Assumptions = []string{
 		"reserved bits (scion-header.rst): common-header RSV, PathMeta RSV, the six r bits and the RSV byte of info fields, the six r bits of hop fields; (scmp.rst) the Unused word of DestinationUnreachable and the reserved half-word of PacketTooBig/ParameterProblem",
 		"a SCION header whose HdrLen exceeds what address header and path need is accepted and re-serialized without the surplus bytes: recorded as observation obs/scion/hdrlen-larger-than-path-needs, not judged (c18JudgeHdrLenSlack)",
@@ -1376,6 +1395,7 @@ func checkC18(r *mon.Run) {
 		"extension headers serialized with FixLengths are judged semantically (options preserved in order, xn+y alignment met, Pad1/PadN well-formed with zero data, ExtLen consistent), not against one particular padding layout",
 		"checksum fields are ignored here (C20)",
 		"total option size is kept below the 1024-byte limit of ExtLen; header values that do not fit the length fields are not generated",
+		"reuse monitor: the state of a decoder object after a rejected decode is not looked at; for the four assigned path types the fresh layer the check judges is the reference for the long-lived layer with and without RecyclePaths, for unassigned path types (strict decoding rejects them only without RecyclePaths) each has a fresh layer of its own setting; empty.Path is a value without state and only exercised inside the layers",
 	}
 	if f := r.ReplayFile(); f != "" {
 		b, err := os.ReadFile(f)
@@ -1392,15 +1412,23 @@ func checkC18(r *mon.Run) {
 		}
 		a := newAcc()
 		buf := gopacket.NewSerializeBuffer()
-		if err == nil && rec.Witness.Dir == "decode" {
+		if err == nil && rec.Witness.Dir == "reuse" {
+			// the recorded input history into a new set of long-lived objects
+			var rw struct {
+				Witness reuseWit `json:"witness"`
+			}
+			if err = json.Unmarshal(b, &rw); err == nil {
+				err = newReuseStream("C18", a, false).replay(&rw.Witness)
+			}
+		} else if err == nil && rec.Witness.Dir == "decode" {
 			var in []byte
 			if in, err = hex.DecodeString(rec.Witness.Input); err == nil {
-				c18Decode(a, in, rec.Witness.Recycle, buf, "replay")
+				c18Decode(a, in, rec.Witness.Recycle, buf, "replay", newReuseStream("C18", a, false))
 			}
 		} else if err == nil {
 			var p c18Pkt
 			if err = json.Unmarshal(rec.Witness.Packet, &p); err == nil {
-				c18Encode(a, &p, buf)
+				c18Encode(a, &p, buf, newReuseStream("C18", a, false))
 			}
 		}
 		if err != nil {
@@ -1419,9 +1447,10 @@ func checkC18(r *mon.Run) {
 	runTasks(r, (nEnc+chunk-1)/chunk, func(t int, a *acc) {
 		rng := r.Rand(fmt.Sprintf("c18/enc/%d", t))
 		buf := gopacket.NewSerializeBuffer()
+		ru := newReuseStream("C18", a, false) // the long-lived decoder objects of this stream
 		for i := t * chunk; i < (t+1)*chunk && i < nEnc; i++ {
 			p := c18Gen(rng, i, false)
-			c18Encode(a, p, buf)
+			c18Encode(a, p, buf, ru)
 			if i%4801 == 11 {
 				q := *p
 				if len(q.Pld) > 24 {
@@ -1439,9 +1468,14 @@ func checkC18(r *mon.Run) {
 	runTasks(r, (nDec+chunk-1)/chunk, func(t int, a *acc) {
 		rng := r.Rand(fmt.Sprintf("c18/dec/%d", t))
 		buf := gopacket.NewSerializeBuffer()
+		ru := newReuseStream("C18", a, false) // the long-lived decoder objects of this stream
 		for i := t * chunk; i < (t+1)*chunk && i < nDec; i++ {
 			p := c18Gen(rng, i, rng.IntN(2) == 0)
-			if rng.IntN(16) == 0 && p.SP != nil {
+			if p.SP != nil && rng.IntN(24) == 0 {
+				// a SCION path without segments (all SegLens zero, arbitrary pointers):
+				// the shortest path a decoder object can be handed after a longer one
+				p.SP = &refScionPath{Meta: refMeta{Inf: uint8(rng.IntN(4)), Hf: uint8(rng.IntN(64)), Rsv: p.SP.Meta.Rsv}}
+			} else if rng.IntN(16) == 0 && p.SP != nil {
 				// the largest paths, to reach the 1020-byte header limit
 				p.SP = &refScionPath{Meta: refMeta{Seg: [3]uint8{22, 21, 21}}}
 				for k := 0; k < 3; k++ {
@@ -1453,12 +1487,19 @@ func checkC18(r *mon.Run) {
 			}
 			wire := p.refWire()
 			in, how := c18Mutate(rng, p, wire)
-			c18Decode(a, in, i%4 == 3, buf, how)
+			c18Decode(a, in, i%4 == 3, buf, how, ru)
 			if i%64 == 5 {
 				// every truncation length of a valid packet
 				limit := int(wire[5])*4 + 48
 				for n := 0; n < len(wire) && n < limit; n++ {
-					c18Decode(a, wire[:n], false, buf, "truncation-sweep")
+					// the long-lived layer sees every fourth truncation length and all
+					// lengths that leave the SCION header complete (the others are
+					// rejected one after the other and only cost error values)
+					sru := ru
+					if n%4 != 0 && n < int(wire[5])*4 {
+						sru = nil
+					}
+					c18Decode(a, wire[:n], false, buf, "truncation-sweep", sru)
 				}
 				a.event("truncation_sweep")
 			}
@@ -1473,7 +1514,8 @@ func checkC18(r *mon.Run) {
 	})
 	r.Require(int64(nEnc+nDec), 150, "encoded", "roundtrip_ok", "spao_roundtrip", "dec_accepted", "dec_rejected",
 		"dec_length_exceeds_data", "dec_reserialized_equal", "obs_reserved_normalised", "truncation_sweep",
-		"newpacket_decoded", "newpacket_error_layer", "newpacket_reserialized_equal")
+		"newpacket_decoded", "newpacket_error_layer", "newpacket_reserialized_equal",
+		"reuse_step", "reuse_equal", "reuse_both_rejected", "reuse_roundtrip_equal")
 	r.RequireClasses(
 		"dec/scion/rejected/hdrlen-exceeds-data", "dec/scion/rejected/address-header-exceeds-data",
 		"dec/scion/rejected/shorter-than-common-header", "dec/scion/rejected/path-segments-exceed-header",
@@ -1485,5 +1527,10 @@ func checkC18(r *mon.Run) {
 		"dec/scmp/rejected/shorter-than-scmp-header", "dec/scmp/accepted/well-formed",
 		"dec/scmp-echo-request/accepted/well-formed", "dec/scmp-traceroute-reply/rejected/scmp-info-block-exceeds-data",
 		"dec/scmp-int-conn-down/rejected/scmp-info-block-exceeds-data",
+		"dec/scion/accepted/scion-path-without-segments",
+		"reuse/scion-layer-recycled-paths/nonempty-then-empty", "reuse/decoded/nonempty-then-empty", "reuse/raw/nonempty-then-empty",
+		"reuse/scion-layer-recycled-paths/path=scion-then-epic", "reuse/scion-layer-recycled-paths/path=epic-then-scion",
+		"reuse/scion-layer-recycled-paths/path=scion-then-empty", "reuse/scion-layer-recycled-paths/path=onehop-then-scion",
 	)
+	reuseRequire(r, "scion-layer", "scion-layer-recycled-paths", "decoded", "raw", "base", "epic")
 }
